@@ -73,7 +73,7 @@ fn emitted(texts: &[(String, String)]) -> Result<doc::Doc, String> {
 // ---------------------------------------------------------------------------
 // Corpus texts (hand-written programs and examples/): trivia at every token boundary
 
-const TRIVIA: [&str; 7] = [" ", "\n", "/* c */ ", "// c\n", "\t", "/* \u{e9}\u{1F609} */", "/* r/w: http://x/y */ "];
+const TRIVIA: [&str; 9] = [" ", "\n", "\r", "// c\r", "/* c */ ", "// c\n", "\t", "/* \u{e9}\u{1F609} */", "/* r/w: http://x/y */ "];
 
 /// (name, files with main first, index of the corpus program) of every corpus program.
 fn corpus_files(i: usize) -> Vec<(String, String)> {
@@ -86,7 +86,7 @@ fn corpus_files(i: usize) -> Vec<(String, String)> {
 }
 
 /// One case: corpus program `i`, boundary after token `k` (where the text already has
-/// trivia): the seven trivia tokens inserted there, one at a time.
+/// trivia): the nine trivia tokens inserted there, one at a time.
 fn judge_corpus_boundary(i: usize, k: usize, sink: Option<&mut Sink>) -> Outcome {
     let p = &crate::tokspace::corpus()[i];
     let files = corpus_files(i);
@@ -266,16 +266,16 @@ impl Engine for C05 {
             Tier::Quick => vec![
                 Phase::new("depth 1 from every fragment seed", json!({"step":1,"depth":1})),
                 Phase::new("depth 2 from every 30th fragment seed", json!({"step":30,"depth":2})),
-                Phase::new("depth 1 from every 2nd program of the kind-agnostic space (<= 2 constructors x 27 contexts)", json!({"step":2,"depth":1,"agnostic":true})),
-                Phase::new("corpus texts (46 hand-written programs, examples/): seven trivia tokens at every token boundary", json!({"corpus":true})),
+                Phase::new("depth 1 from every 2nd program of the kind-agnostic space (<= 2 constructors x 28 contexts)", json!({"step":2,"depth":1,"agnostic":true})),
+                Phase::new("corpus texts (48 hand-written programs, examples/): nine trivia tokens at every token boundary", json!({"corpus":true})),
             ],
             Tier::Thorough => vec![
                 Phase::new("depth 1 from every fragment seed", json!({"step":1,"depth":1})),
                 Phase::new("depth 2 from every 8th fragment seed", json!({"step":8,"depth":2})),
                 Phase::new("depth 3 from every 400th fragment seed", json!({"step":400,"depth":3})),
-                Phase::new("depth 1 from every program of the kind-agnostic space (<= 2 constructors x 27 contexts)", json!({"step":1,"depth":1,"agnostic":true})),
+                Phase::new("depth 1 from every program of the kind-agnostic space (<= 2 constructors x 28 contexts)", json!({"step":1,"depth":1,"agnostic":true})),
                 Phase::new("depth 2 from every 10th program of the kind-agnostic space", json!({"step":10,"depth":2,"agnostic":true})),
-                Phase::new("corpus texts (46 hand-written programs, examples/): seven trivia tokens at every token boundary", json!({"corpus":true})),
+                Phase::new("corpus texts (48 hand-written programs, examples/): nine trivia tokens at every token boundary", json!({"corpus":true})),
             ],
         }
     }
